@@ -83,6 +83,9 @@ func (w *World) setupCallbacks() {
 		cbs.ItemValWrite = func(c *g.Collection, i *g.Item, wr io.WriterAt, off int64) error {
 			w.ev["cb_valwrite"]++
 			chunk := len(i.Val)%7 + 1
+			if len(i.Val) > 4096 {
+				chunk = len(i.Val)/37 + 1 // very large values: a few dozen odd-sized pieces
+			}
 			for p := 0; p < len(i.Val); p += chunk {
 				e := p + chunk
 				if e > len(i.Val) {
@@ -100,6 +103,9 @@ func (w *World) setupCallbacks() {
 			w.ev["cb_valread"]++
 			i.Val = make([]byte, n)
 			chunk := int(n)%5 + 1
+			if n > 4096 {
+				chunk = int(n)/29 + 1
+			}
 			for p := 0; p < int(n); p += chunk {
 				e := p + chunk
 				if e > int(n) {
